@@ -61,6 +61,15 @@ def cases(thorough):
         for wu, pu, box in [("m", "cm", 1.0), ("cm", "m", 4.0)]:
             for op in ("sum", "mean"):
                 yield dict(base, block="U", dz=1 / 2, dx=1.0, resolution=3, operation=op, origin=o, direction="z", win_unit=wu, pos_unit=pu, box=box)
+        # block S: sequences of thick maps in one process, mixing the default resolution, partial dictionaries and ints
+        if ti in (0, 2):
+            K1 = dict(base, dz=2 / 256, dx=1.0, resolution=None, operation="sum", origin=o, direction="z")
+            K2 = dict(K1, dz=8 / 256, operation="mean")
+            K3 = dict(base, dz=4 / 16, dx=1.0, resolution={"x": 16, "y": 16}, operation="sum", origin=o, direction="z")
+            K4 = dict(base, dz=2 / 8, dx=1.0, resolution=8, operation="nanmax", origin=o, direction="z")
+            K5 = dict(base, dz=1 / 2, dx=1.0, resolution={"x": 4, "y": 4}, operation="sum", origin=o, direction="z")
+            for seq in ([K1, K2], [K2, K1], [K1, K3], [K3, K1], [K1, K4, K2], [K3, K5], [K5, K3], [K4, K1, K3]):
+                yield dict(base, block="S", sequence=[dict(x) for x in seq])
         if ndim == 3:
             normals = [(1, 1, 1), (-2, 1, 0), (1, 0, 2), (0, -1, 1), (2, -2, 1)] if not thorough else [n for n in itertools.product([-2, -1, 0, 1, 2], repeat=3) if n != (0, 0, 0)][::4]
             for n in normals:
@@ -69,18 +78,19 @@ def cases(thorough):
                 yield dict(base, block="C", dz=1 / 2, dx=1.0, resolution=3, operation="nanmin", origin=o2, direction=["normal", list(n)])
 
 
-def run_case(acc, idx, c):
+def run_single(acc, idx, c, report=None):
     import osyris
 
+    report = report or c
     mesh, centres, sizes, vals = _map.build_mesh(c)
     box = c.get("box", 1.0)
     ndim = c["tree"]["ndim"]
-    res = c["resolution"]
+    res = c.get("resolution")
     p, basis = _map.call_map(c, mesh)
     thin = c["dz"] * box < sizes.min()
     tag = "slab-thinner-than-cells" if thin else "slab-not-thinner-than-cells"
     if isinstance(p, Exception):
-        acc.violation(f"C11:map-raised:{type(p).__name__}:{tag}", idx, c, {"error": repr(p)[:200]})
+        acc.violation(f"C11:map-raised:{type(p).__name__}:{tag}", idx, report, {"error": repr(p)[:200]})
         return "raises", True
     nx, ny = len(p.x), len(p.y)
     # depth resolution: given, or "the one making the step as close as possible to the pixel size": both
@@ -97,13 +107,35 @@ def run_case(acc, idx, c):
     good = [r for r in results if r[0] is None]
     if not good:
         sig, det = results[0][0], results[0][1]
-        acc.violation(sig, idx, c, det)
+        acc.violation(sig, idx, report, det)
         return "violation", True
     stats = good[0][2]
     acc.count("pixels", stats["pixels"])
     acc.count("columns_with_missing_samples", stats["missing"])
     acc.count("depth_samples", stats["samples"])
     return "ok", stats["nontrivial"]
+
+
+def run_case(acc, idx, c):
+    """one thick map, or a sequence of thick maps made one after the other in the same process"""
+    if "sequence" not in c:
+        return run_single(acc, idx, c)
+    out, nontrivial = "ok", False
+    for k, sub in enumerate(c["sequence"]):
+        before = set(acc.violations)
+        o, nt = run_single(acc, idx, dict(sub, block=c["block"]), report=c)
+        nontrivial = nontrivial or nt
+        if o not in ("ok",) and not str(o).startswith("skipped"):
+            out = o
+            if k > 0:
+                for sig in set(acc.violations) - before:
+                    new = sig + ":only-after-earlier-calls"
+                    acc.violations[new] = acc.violations.pop(sig)
+                    acc.vcount[new] = acc.vcount.pop(sig)
+                    for _, rec in acc.violations[new]:
+                        rec["sig"] = new
+            break
+    return out, nontrivial
 
 
 def check_with_nz(c, p, basis, mesh, centres, sizes, vals, nz, tag):
